@@ -905,6 +905,8 @@ fn matrix_cells(rng: &mut Rng, shard: usize, nshards: usize, budget: usize) -> V
         ("return in program", "switch|return-in-program", "PROGRAM Main\nVAR\n  x : INT;\nEND_VAR\nx := x + INT#1;\nIF x > INT#0 THEN\n  RETURN;\nEND_IF;\nx := INT#0;\nEND_PROGRAM\n".into()),
         ("fb call without args", "switch|fb-call-without-args", "FUNCTION_BLOCK B\nVAR_INPUT a : INT; b : INT; END_VAR\nVAR_OUTPUT o : INT; END_VAR\no := a + b;\nEND_FUNCTION_BLOCK\nPROGRAM Main\nVAR\n  fb : B;\nEND_VAR\nfb();\nEND_PROGRAM\n".into()),
         ("subrange overflow", "switch|subrange-overflow", "PROGRAM Main\nVAR\n  s : INT(0..10);\n  x : INT := INT#50;\nEND_VAR\ns := x;\nEND_PROGRAM\n".into()),
+        ("subrange defaults", "switch|subrange-default", "TYPE Lvl : INT(5..10); END_TYPE\nTYPE Rec : STRUCT lo : SINT(-20..-3); hi : UINT(100..200); END_STRUCT END_TYPE\nFUNCTION_BLOCK Hold\nVAR_INPUT i : INT(5..10); END_VAR\nVAR_OUTPUT o : DINT(1000..2000); END_VAR\nVAR st : Lvl; n : INT; END_VAR\nn := n + INT#1;\nEND_FUNCTION_BLOCK\nPROGRAM Main\nVAR\n  level : INT(5..10);\n  neg : SINT(-20..-3);\n  big : UINT(100..200);\n  named : Lvl;\n  arr : ARRAY[0..2] OF INT(5..10);\n  rec : Rec;\n  h : Hold;\n  zero_ok : INT(-3..3);\n  n : INT;\nEND_VAR\nn := n + INT#1;\nh();\nEND_PROGRAM\n".into()),
+        ("subrange of alias default", "switch|subrange-of-alias-default", "TYPE Base : INT; END_TYPE\nPROGRAM Main\nVAR\n  v : Base(5..10);\n  n : INT;\nEND_VAR\nn := n + INT#1;\nEND_PROGRAM\n".into()),
         ("enum case", "switch|case-enum-selector", "TYPE E : (Red, Green, Blue); END_TYPE\nPROGRAM Main\nVAR\n  e : E := E#Green;\n  r : INT;\nEND_VAR\nCASE e OF\n  E#Red: r := INT#1;\n  E#Green: r := INT#2;\nEND_CASE;\nEND_PROGRAM\n".into()),
         ("pow negative int exponent", "switch|pow-negative-exponent", "PROGRAM Main\nVAR\n  a : INT := INT#2;\n  b : INT := INT#-1;\n  r : INT;\nEND_VAR\nr := a ** b;\nEND_PROGRAM\n".into()),
         ("en/eno calls", "switch|en-eno", "FUNCTION Scale : INT\nVAR_INPUT EN : BOOL; x : INT; END_VAR\nVAR_OUTPUT ENO : BOOL; END_VAR\nScale := x * INT#2;\nEND_FUNCTION\nFUNCTION Compute : INT\nVAR_INPUT enable : BOOL; base : INT; END_VAR\nVAR tmp : INT; ok : BOOL; END_VAR\ntmp := Scale(EN := enable, x := base, ENO => ok);\nIF enable THEN\n  Compute := tmp + base;\nELSE\n  Compute := base * INT#3;\nEND_IF;\nEND_FUNCTION\nFUNCTION_BLOCK Gate\nVAR_INPUT EN : BOOL; x : INT; END_VAR\nVAR_OUTPUT ENO : BOOL; y : INT; END_VAR\nVAR n : INT; END_VAR\nn := n + INT#1;\ny := x + n;\nEND_FUNCTION_BLOCK\nFUNCTION_BLOCK User\nVAR_INPUT go : BOOL; END_VAR\nVAR_OUTPUT o : INT; END_VAR\nVAR loc : INT := INT#7; t : INT; END_VAR\nt := Scale(EN := go, x := loc);\nIF go THEN\n  o := t + loc;\nELSE\n  o := loc;\nEND_IF;\nEND_FUNCTION_BLOCK\nPROGRAM Main\nVAR d1 : INT; r1 : INT; r2 : INT; ok2 : BOOL := TRUE; g : Gate; h : Gate; gn : INT; hy : INT; gok : BOOL := TRUE; u : User; u2 : User; uo : INT; u2o : INT; skipped : INT; END_VAR\nd1 := Scale(EN := TRUE, x := INT#4);\nskipped := Scale(EN := FALSE, x := INT#4, ENO => ok2);\nr1 := Compute(enable := TRUE, base := INT#5);\nr2 := Compute(enable := FALSE, base := INT#5);\ng(EN := FALSE, x := INT#3, ENO => gok);\nh(EN := TRUE, x := INT#3);\nhy := h.y;\nu(go := FALSE);\nu2(go := TRUE);\nuo := u.o;\nu2o := u2.o;\nEND_PROGRAM\n".into()),
